@@ -428,7 +428,7 @@ def _execute(plan, choices=None):
                 break
             trace.append(("get", i))
             probes["dataset_aug_reads"] += 1
-            f, insts, one = _truth_for_index(scene, kind, i)
+            f, insts, one = _truth_for_index(scene, kind, i, cfg.get("user_instances_only", True))
             H, W = scene["sizes"][f["video"]]
             level = dw.frame_level(f["video"] * 12 + f["frame_idx"])
             mh, mw = cfg["max_hw"]
